@@ -499,7 +499,10 @@ def loadDefs (st : LS) (defs : List DefEntry) : LS :=
                      prefixNames := (inp.input.filter fun x => x.1.ns == .prefix_).map (·.1.name) }
   let fuel := 64 * (inp.input.length + 8)
   let rs0 : RS := { unmarked := inp.unmarked.foldl (fun s k => s.insert k) {}, errors := inp.errors }
-  let rs := drain env fuel inp.unmarked rs0
+  -- base units first (they depend on nothing and can be referred to by their long names, which
+  -- are not entries of their own), then every id in key order
+  let baseIds := inp.unmarked.filter fun id => match defMap[id]? with | some (.baseUnit _) => true | _ => false
+  let rs := drain env fuel (baseIds ++ inp.unmarked) rs0
   let st := { st with errors := st.errors ++ rs.errors ++ (if rs.outOfFuel then ["model-out-of-fuel"] else []) }
   finish (loadSorted st env rs.sorted.reverse) inp
 
